@@ -23,7 +23,7 @@ func init() {
 		ID:    "C09",
 		Title: "Frames the decoder must reject are rejected",
 		Level: "model_checking",
-		Rule: "mutation of every frame of the valid corpus V (specification encoder; plus CONNECT frames with other protocol names/versions, which parse but are not v5.0; plus frames in which a user property holding non-UTF-8 bytes directly precedes each property the type allows; plus minimal and rich frames under every other flag nibble; plus minimal and rich frames carrying, as their last property, each property MQTT defines but not for that packet type; thorough adds frames with 127/128/255/256/16383/16384-byte strings) driven by the encoder's field map: " +
+		Rule: "(quick and thorough: seven kinds of frame that END on a string or binary field of 300, 4096, 32768, 40000, 65280, 65533, 65534 and 65535 bytes - reason string, authentication data, client id, password, content type of a PUBLISH without payload, user property value, UNSUBSCRIBE filter - cut at the first and last bytes, the middle and where a one- or two-byte counter of the body turns over) mutation of every frame of the valid corpus V (specification encoder; plus CONNECT frames with other protocol names/versions, which parse but are not v5.0; plus frames in which a user property holding non-UTF-8 bytes directly precedes each property the type allows; plus minimal and rich frames under every other flag nibble; plus minimal and rich frames carrying, as their last property, each property MQTT defines but not for that packet type; thorough adds frames with 127/128/255/256/16383/16384-byte strings) driven by the encoder's field map: " +
 			"(a) every cut position strictly inside a two/four-byte integer, a string or binary (prefix or body), a multi-byte variable byte integer, or a property (between identifier and value), with the remaining length rewritten to the shortened size (PUBLISH payload exempt); " +
 			"(b) every variable-byte-integer position (remaining length, property length, subscription identifier) replaced by each 5-byte continuation {80,ff}^4 x {00,01,7f}, enclosing lengths adjusted; (c) every boolean property occurrence x every value 2..255; (d) every property position, will properties included, x all 229 identifiers MQTT v5.0 does not define. " +
 			"Conjunctions: the cuts of (a) inside a property section with the property length shortened too; (b) with runs of 6..40 continuation bytes; (c)/(d) in frames whose property section also ends right after that identifier; (d) with defined identifiers whose top bit is set before each of 16 next bytes. " +
@@ -233,6 +233,62 @@ func c09Corpus(x *core.Ctx) []VFrame {
 			}
 		}
 	}
+	// frames that END on a long string or binary field (the decoder's last
+	// bounds check is then the only thing between a cut and a packet):
+	// lengths around the top of the two-byte prefix and mid-range ones, in
+	// every position that can be the last field of a frame
+	for _, n := range []int{300, 4096, 32768, 40000, 65280, 65533, 65534, 65535} {
+		long := gen.Content('L', n)
+		type mk struct {
+			name string
+			f    func() *spec.Packet
+		}
+		for _, m := range []mk{
+			{"DISCONNECT.reasonstring", func() *spec.Packet {
+				p := minimalPacket(14)
+				p.Props = []spec.Prop{{ID: 0x1f, B: long}}
+				return p
+			}},
+			{"AUTH.authdata", func() *spec.Packet {
+				p := minimalPacket(15)
+				p.Reason = 0x18
+				p.Props = []spec.Prop{{ID: 0x15, B: []byte("m")}, {ID: 0x16, B: long}}
+				return p
+			}},
+			{"CONNECT.clientid", func() *spec.Packet { p := minimalPacket(1); p.ClientID = long; return p }},
+			{"CONNECT.password", func() *spec.Packet {
+				p := minimalPacket(1)
+				p.HasPass, p.Pass = true, long
+				return p
+			}},
+			{"PUBLISH.contenttype.nopayload", func() *spec.Packet {
+				p := minimalPacket(3)
+				p.Props = []spec.Prop{{ID: 0x03, B: long}}
+				return p
+			}},
+			{"PUBACK.userprop.value", func() *spec.Packet {
+				p := minimalPacket(4)
+				p.Reason = 0x10
+				p.Props = []spec.Prop{{ID: 0x26, B: []byte("k"), V: long}}
+				return p
+			}},
+			{"UNSUBSCRIBE.filter", func() *spec.Packet {
+				p := minimalPacket(10)
+				p.Filters = []spec.Filter{{Topic: long}}
+				return p
+			}},
+		} {
+			p := m.f()
+			b, fields, err := spec.Encode(p, spec.Form{})
+			if err != nil {
+				continue
+			}
+			if _, _, k, derr := spec.Decode(b, false); derr != nil || k != len(b) {
+				continue
+			}
+			v = append(v, VFrame{B: b, Fields: fields, P: p, Name: fmt.Sprintf("%s.len%d.last", m.name, n)})
+		}
+	}
 	if !x.Thorough() {
 		return v
 	}
@@ -316,6 +372,10 @@ func runC09(x *core.Ctx) {
 		body := v.B[hdr:]
 		// (a) cuts strictly inside a field
 		cuts := map[int]string{}
+		longField := 600
+		if x.Thorough() {
+			longField = 20000 // every cut inside fields up to 20 000 bytes
+		}
 		for _, f := range v.Fields {
 			if f.Start < hdr {
 				continue
@@ -338,6 +398,14 @@ func runC09(x *core.Ctx) {
 				continue
 			}
 			for c := f.Start + 1; c < f.End; c++ {
+				if n := f.End - f.Start; n > longField {
+					// a long field: the first and last bytes, the middle and the
+					// positions where a 1- or 2-byte counter of the body turns over
+					d := c - f.Start
+					if !(d <= 4 || f.End-c <= 3 || d == n/2 || (d-2)%256 <= 1 && (d-2)/256%64 == 0 || d-2 == 4095 || d-2 == 4096) {
+						continue
+					}
+				}
 				if _, ok := cuts[c]; !ok || f.Kind != spec.FProperty {
 					cuts[c] = k
 				}
